@@ -26,6 +26,7 @@ func runC16(c *Ctx) {
 	ruleArityAll(c, "ARITY")
 	ruleDirWiring(c, "WIRING")
 	ruleServiceOptions(c, "WIRING", "service.WithMetrics", "its datagrams are relayed but never reported")
+	ruleAdapterStatus(c, "WIRING")
 }
 
 // perIteration: the cell behind load v is allocated inside a loop body of its function (fresh per iteration), or v is not a cell at all.
